@@ -18,10 +18,14 @@ def kv(l):
 
 
 def sline(par, threads, ctor, flv, cache, fringe, width, cutk, dom, primal=None):
+    """primal: None, one (value, solution) pair, or a list of pairs applied in order by successive set_primal calls"""
     s = "S %d %d %d %d %d %d %d %d %d" % (par, threads, ctor, flv, cache, fringe, width, cutk, dom)
     if primal is None: return s + " 0"
-    pv, sol = primal
-    return s + " 1 %d %d %s" % (pv, len(sol), " ".join("%d %d" % (x, v) for x, v in sol))
+    if isinstance(primal, tuple): primal = [primal]
+    s += " %d" % len(primal)
+    for pv, sol in primal:
+        s += " %d %d %s" % (pv, len(sol), " ".join("%d %d" % (x, v) for x, v in sol))
+    return s
 
 
 def run_blocks(side, blocks, tag):
@@ -259,6 +263,16 @@ def check_c01(tier, pid="C01"):
         extra = {"diagram_level_stream": {"compilations": sum(len(r) for _, r in res), "agreements": ag, "disagreements": len(ds)}}
         for (I, meta, li, lm, case, why) in ds[:10]:
             sc.dis.append((I, case, li[:1200], lm[:1200], "diagram-level " + str(why)))
+    if pid in ("C01", "C02"):
+        import check_simple
+        nseq, fbad = check_simple.nodup_tie(tier, pid + "f")
+        sc.stats["fringe_level_sequences"] = nseq
+        for (l, a, b, v) in fbad[:5]:
+            if v != "OK":
+                sc.chk.violation("property", "NoDupFringe is not a faithful priority queue (%s): sub-problems handed to the solver are lost / altered (value and path of an "
+                                 "entry no longer belong together) (ops %s, answers %s)" % (v, l, a), {"ops": l, "impl": a, "model": b, "spec_verdict": v})
+            else:
+                sc.dis.append((insts[0], l, a, b, "fringe-level"))
     if pid == "C09":
         # diagram-level stream with the threshold cache (and dominance store) shared across compilations, as the solvers do:
         # thresholds, cache calls and pruning flags of every compilation must equal the model's
@@ -383,6 +397,17 @@ def check_cutoff(tier, pid):
                     if f.get("x") != "1" or f.get("bv") != opt or (opt != "none" and (lb != int(opt) or ub != int(opt))):
                         sc.chk.violation("property", "cutoff after the last poll (%d): run is not exact with both bounds at the optimum %s (%s)" % (k, opt, case), ctx)
             sc.compare_model(I, case, li, lm)
+    # the anytime theorems rely on the fringe popping a maximal upper bound: tie the fringe model to the code here as well
+    import check_simple
+    nseq, fbad = check_simple.nodup_tie(tier, pid + "f")
+    sc.stats["fringe_level_sequences"] = nseq
+    for (l, a, b, v) in fbad[:5]:
+        if v != "OK":
+            sc.chk.violation("property", "NoDupFringe does not pop in non-increasing upper-bound order (%s): the upper bound reported at a cutoff is the ub of the last "
+                             "popped node, so it is not monotone in the cutoff point / may be exceeded by an open node (ops %s, answers %s)" % (v, l, a),
+                             {"ops": l, "impl": a, "model": b, "spec_verdict": v})
+        else:
+            sc.dis.append((insts[0], l, a, b, "fringe-level"))
     expl = {"C05": "Counting cutoff firing at every poll index 1..K+1 of the uninterrupted run (exhaustive in k) for each instance/configuration: bounds enclose the "
                    "optimum from exhaustive enumeration, solution replays to the lower bound, is_exact only when optimal; the Coq solver model is run with the same "
                    "cutoff index and compared. Parallel part: see C03/C04 runs. Anytime-soundness theorem: open obligation.",
@@ -413,17 +438,22 @@ def check_c14(tier):
             primals = [(int(opt), best[0])]
             if worse: primals.append((worse[0][0], worse[0][1]))
             if len(worse) > 3: primals.append((worse[-1][0], worse[-1][1]))
-            for (pv, sol) in primals:
+            seqs = [[p] for p in primals]
+            if len(primals) >= 2:
+                # several set_primal calls: improving order, best first (the later, worse one must NOT replace the incumbent), equal value twice
+                seqs += [[primals[1], primals[0]], [primals[0], primals[1]], [primals[0], primals[-1]]]
+            if len(best) >= 2: seqs.append([(int(opt), best[0]), (int(opt), best[1])])
+            for sq in seqs:
                 for (flv, cache, fr, w, dom) in cfgs:
-                    lines.append(sline(0, 1, 1, flv, cache, fr, w, 0, dom, primal=(pv, sorted(sol))))
-                    meta.append((pv, sol))
+                    lines.append(sline(0, 1, 1, flv, cache, fr, w, 0, dom, primal=[(pv, sorted(sol)) for pv, sol in sq]))
+                    meta.append((max(pv for pv, _ in sq), [sorted(sol) for _, sol in sq], sq))
         blocks.append(lines); metas.append(meta)
     impl = run_blocks("impl", blocks, "C14")
     model = run_blocks("model", blocks, "C14")
     sc.stats["primal_optimal"] = 0; sc.stats["primal_suboptimal"] = 0; sc.stats["caller_solution_returned"] = 0
     for I, blk, il, ml, en, meta in zip(insts, blocks, impl, model, enums, metas):
         opt = en[0]
-        for case, li, lm, (pv, psol) in zip(blk[1:], il, ml, meta):
+        for case, li, lm, (pv, psols, sq) in zip(blk[1:], il, ml, meta):
             f = kv(li); sc.note_run(case, f)
             ctx = describe(I, case, li, lm, optimum=opt, primal=pv)
             if pv == int(opt): sc.stats["primal_optimal"] += 1
@@ -438,7 +468,12 @@ def check_c14(tier):
             else:
                 m = solution_ok(I, f, want)
                 if m: sc.chk.violation("property", "solution returned with a warm start does not replay to %d: %s" % (want, m), ctx)
-                if dec_list(f.get("sol")) == sorted(psol): sc.stats["caller_solution_returned"] += 1
+                if dec_list(f.get("sol")) in psols: sc.stats["caller_solution_returned"] += 1
+                # set_primal replaces the incumbent only when strictly greater: if the first primal is already optimal and a later one is not
+                # better, the solution returned (when it is one of the caller's) must be the FIRST optimal one
+                if len(sq) >= 2 and sq[0][0] == int(opt) and sq[1][0] <= sq[0][0] and dec_list(f.get("sol")) == sorted(sq[1][1]) and sorted(sq[1][1]) != sorted(sq[0][1]):
+                    sc.chk.violation("property", "set_primal replaced the incumbent although the new value %d is not strictly greater than %d" % (sq[1][0], sq[0][0]), ctx)
+                if len(sq) >= 2: sc.stats["primal_sequences"] = sc.stats.get("primal_sequences", 0) + 1
             sc.compare_model(I, case, li, lm)
     return sc.finish(RULE + "; primal = (value, witness solution) taken from the specification's enumeration: optimum, best sub-optimal, worst",
                      "Warm-start runs compared with max(primal, optimum) from exhaustive enumeration and with the Coq solver model started from set_primal.",
